@@ -15,6 +15,7 @@ package main
 //         then "work=<ticks> g=<goroutines still alive>" measured after the producer settled.
 
 import (
+	"context"
 	"hash/fnv"
 	"fmt"
 	"math/rand"
@@ -109,7 +110,7 @@ func c12Query(spec string, side int, variant int) string {
 			}
 		}
 		return fmt.Sprintf("( member(X, [%s]), %s ; %s, fail ).", strings.Join(xs, ","), tick, tick)
-	case "inf":
+	case "inf", "can":
 		return fmt.Sprintf("between(1, 1000000000, X), %s.", tick)
 	case "cut":
 		// only cuts: compiled inline, no predicate is called, the answer carries the nil environment
@@ -265,11 +266,28 @@ func runC12Seq(payload string) string {
 	cons := newC12Consumer()
 	base++ // the consumer goroutine stays parked until stop()
 	atomic.StoreInt64(&c12.ticks[0], 0)
-	sols, err := i.Query(c12Query(spec, 0, c12Variant(payload)))
+	// "can J": the endless query under a context that is CANCELLED right after its J-th answer was handed over
+	// (the search goroutine is parked between two requests then): from there on the query has ended in an
+	// error, i.e. the calls see what they see for "err J" (with the context's error, and without the search
+	// step that would have found the end)
+	canJ := -1
+	ctx, cancel := context.WithCancel(context.Background())
+	defer cancel()
+	if f := strings.Fields(spec); f[0] == "can" {
+		canJ, _ = strconv.Atoi(f[1])
+	}
+	doCancel := func() {
+		cancel()
+		time.Sleep(5 * time.Millisecond) // whoever watches the context has noticed by now
+	}
+	sols, err := i.QueryContext(ctx, c12Query(spec, 0, c12Variant(payload)))
 	must(err)
+	if canJ == 0 {
+		doCancel()
+	}
 	var res []string
 	mayExit, blocked := false, false
-	afterEnd, nNext := 0, 0
+	afterEnd, nNext, nTrue := 0, 0, 0
 	for _, o := range ops {
 		if mayExit {
 			afterEnd++
@@ -286,6 +304,11 @@ func runC12Seq(payload string) string {
 		}
 		if r == "N:false" || r == "C:nil" {
 			mayExit = true
+		}
+		if r == "N:true" {
+			if nTrue++; nTrue == canJ {
+				doCancel()
+			}
 		}
 	}
 	g := c12Settle(base, 0, mayExit && !blocked)
@@ -369,6 +392,22 @@ func genC12Seq(r *rand.Rand, n int, tier string) []string {
 	}
 	for i := 0; i < n; i++ {
 		out = append(out, c12RandSpec(r)+" | "+strings.Join(c12RandSeq(r, 6+r.Intn(9)), " "))
+	}
+	// cancelled contexts: all sequences over {N, S, E} up to length 5 (Close only after the end was reported:
+	// what Err shows when Close and the cancellation race is not determined)
+	for _, seq := range c12AllSeqs(5) {
+		if strings.Contains(strings.Join(seq, ""), "C") {
+			continue
+		}
+		for j := 0; j < 3; j++ {
+			nN := strings.Count(strings.Join(seq, ""), "N")
+			out = append(out, fmt.Sprintf("can %d | %s", j, strings.Join(seq, " ")))
+			if nN == j+1 && seq[len(seq)-1] == "N" {
+				for _, tail := range []string{"C", "C N E", "N N C C", "E C S N"} {
+					out = append(out, fmt.Sprintf("can %d | %s %s", j, strings.Join(seq, " "), tail))
+				}
+			}
+		}
 	}
 	return out
 }
